@@ -27,6 +27,7 @@ enum Ty {
     Str,
     Bool,
     Bytes,
+    Json,
 }
 
 fn ty_char(t: Ty) -> char {
@@ -36,6 +37,7 @@ fn ty_char(t: Ty) -> char {
         Ty::Str => 's',
         Ty::Bool => 'b',
         Ty::Bytes => 'y',
+        Ty::Json => 'j',
     }
 }
 fn ty_col(t: Ty) -> ColumnType {
@@ -45,6 +47,7 @@ fn ty_col(t: Ty) -> ColumnType {
         Ty::Str => ColumnType::String,
         Ty::Bool => ColumnType::Bool,
         Ty::Bytes => ColumnType::Bytes,
+        Ty::Json => ColumnType::Json,
     }
 }
 
@@ -56,8 +59,99 @@ fn tok(v: &Value) -> String {
         Value::String(s) => format!("s{}", hex(s.as_bytes())),
         Value::Bool(b) => if *b { "b1".into() } else { "b0".into() },
         Value::Bytes(b) => format!("y{}", hex(b)),
+        Value::Json(j) => format!("j{}~{}", json_tree(j), hex_raw(j.to_string().as_bytes())),
+        #[allow(unreachable_patterns)]
         _ => "?".into(),
     }
+}
+
+fn hex_raw(bytes: &[u8]) -> String {
+    bytes.iter().map(|b| format!("{b:02x}")).collect()
+}
+
+/// prefix code of a JSON tree for the model driver (see Driver.lean): the kind of every number
+/// (`PosInt` / `NegInt` / `Float`, floats as bit patterns) is explicit; object fields come in `BTreeMap` order
+fn json_tree(j: &serde_json::Value) -> String {
+    match j {
+        serde_json::Value::Null => "z".into(),
+        serde_json::Value::Bool(b) => if *b { "t".into() } else { "f".into() },
+        serde_json::Value::Number(n) => {
+            if let Some(u) = n.as_u64() {
+                format!("u{u};")
+            } else if let Some(i) = n.as_i64() {
+                format!("m{};", i.unsigned_abs())
+            } else {
+                format!("d{:016x}", n.as_f64().unwrap_or(f64::NAN).to_bits())
+            }
+        },
+        serde_json::Value::String(s) => format!("s{};", hex_raw(s.as_bytes())),
+        serde_json::Value::Array(items) => format!("a{}]", items.iter().map(json_tree).collect::<String>()),
+        serde_json::Value::Object(fields) => {
+            format!("o{}}}", fields.iter().map(|(k, v)| format!("s{};{}", hex_raw(k.as_bytes()), json_tree(v))).collect::<String>())
+        },
+    }
+}
+
+/// reference equality of JSON values, written out (not `serde_json`'s `==`): numbers are equal when they are
+/// of the same kind (non-negative integer / negative integer / float) with equal payload, floats by `f64 ==`
+fn j_eq(a: &serde_json::Value, b: &serde_json::Value) -> bool {
+    use serde_json::Value as J;
+    match (a, b) {
+        (J::Null, J::Null) => true,
+        (J::Bool(x), J::Bool(y)) => x == y,
+        (J::Number(x), J::Number(y)) => {
+            if x.is_u64() || y.is_u64() {
+                x.is_u64() && y.is_u64() && x.as_u64() == y.as_u64()
+            } else if x.is_i64() || y.is_i64() {
+                x.is_i64() && y.is_i64() && x.as_i64() == y.as_i64()
+            } else {
+                matches!((x.as_f64(), y.as_f64()), (Some(p), Some(q)) if p == q)
+            }
+        },
+        (J::String(x), J::String(y)) => x.as_bytes() == y.as_bytes(),
+        (J::Array(x), J::Array(y)) => x.len() == y.len() && x.iter().zip(y.iter()).all(|(p, q)| j_eq(p, q)),
+        (J::Object(x), J::Object(y)) => {
+            x.len() == y.len() && x.iter().all(|(k, p)| y.get(k).is_some_and(|q| j_eq(p, q)))
+        },
+        _ => false,
+    }
+}
+
+/// the JSON value with every floating-point zero written `0.0` (for classification only)
+fn j_pos_zeros(j: &serde_json::Value) -> serde_json::Value {
+    use serde_json::Value as J;
+    match j {
+        J::Number(n) if !n.is_u64() && !n.is_i64() && n.as_f64() == Some(0.0) => J::from(0.0_f64),
+        J::Array(items) => J::Array(items.iter().map(j_pos_zeros).collect()),
+        J::Object(fields) => J::Object(fields.iter().map(|(k, v)| (k.clone(), j_pos_zeros(v))).collect()),
+        other => other.clone(),
+    }
+}
+
+/// the same JSON value with the sign of every floating-point zero flipped: equal to the original, rendered differently
+fn j_flip_zeros(j: &serde_json::Value) -> serde_json::Value {
+    use serde_json::Value as J;
+    match j {
+        J::Number(n) if !n.is_u64() && !n.is_i64() && n.as_f64() == Some(0.0) => {
+            J::from(if n.as_f64().is_some_and(f64::is_sign_negative) { 0.0_f64 } else { -0.0_f64 })
+        },
+        J::Array(items) => J::Array(items.iter().map(j_flip_zeros).collect()),
+        J::Object(fields) => J::Object(fields.iter().map(|(k, v)| (k.clone(), j_flip_zeros(v))).collect()),
+        other => other.clone(),
+    }
+}
+
+/// JSON values: every kind, both float zeros bare and nested, integer zero, numbers that differ only in kind
+/// (`1` / `1.0`), strings that need escaping, strings that look like numbers.  Floats are small dyadic numbers:
+/// their shortest decimal rendering parses back exactly (the slab stores JSON as text).
+fn json_specials() -> Vec<serde_json::Value> {
+    use serde_json::json as j;
+    vec![
+        j!(-0.0), j!(0.0), j!(0), j!({"a": -0.0}), j!({"a": 0.0}), j!([0.0]), j!([-0.0]), j!(1), j!(1.0), j!(-1), j!(-1.0),
+        j!("x"), j!(""), j!("0.0"), j!("a\"b\n"), j!("é"), j!(null), j!(true), j!(false), j!({}), j!([]),
+        j!({"a": 0.0, "b": 1}), j!({"a": -0.0, "b": 1}), j!({"b": [1, {"c": -0.0}], "a": null}), j!({"b": [1, {"c": 0.0}], "a": null}),
+        j!([1, [-0.0, 0.0]]), j!([1, [0.0, 0.0]]), j!(2.5), j!(-2.5), j!(0.5), j!(u64::MAX), j!(i64::MIN), j!([0]), j!([0.0, 0]),
+    ]
 }
 
 const FLOAT_SPECIALS: [u64; 22] = [
@@ -109,6 +203,20 @@ fn gen_val(r: &mut Rng, ty: Ty) -> Value {
         Ty::Str => Value::String((*r.pick(&STR_SPECIALS)).to_string()),
         Ty::Bool => Value::Bool(r.chance(1, 2)),
         Ty::Bytes => Value::Bytes(r.pick(&BYTES_SPECIALS).to_vec()),
+        Ty::Json => {
+            let sp = json_specials();
+            Value::Json(match r.below(10) {
+                0 => serde_json::Value::Array(vec![r.pick(&sp).clone(), r.pick(&sp).clone()]),
+                1 => {
+                    let mut m = serde_json::Map::new();
+                    m.insert((*r.pick(&["a", "b", ""])).to_string(), r.pick(&sp).clone());
+                    m.insert((*r.pick(&["a", "c"])).to_string(), r.pick(&sp).clone());
+                    serde_json::Value::Object(m)
+                },
+                2 => serde_json::json!(r.range(-3, 6) as f64 / 4.0),
+                _ => r.pick(&sp).clone(),
+            })
+        },
     }
 }
 
@@ -203,6 +311,7 @@ fn h_eq(a: &Value, b: &Value) -> bool {
         (Value::String(x), Value::String(y)) => x.as_bytes() == y.as_bytes(),
         (Value::Bool(x), Value::Bool(y)) => x == y,
         (Value::Bytes(x), Value::Bytes(y)) => x == y,
+        (Value::Json(x), Value::Json(y)) => j_eq(x, y),
         _ => false,
     }
 }
@@ -212,6 +321,8 @@ fn h_cmp(a: &Value, b: &Value) -> Option<Ordering> {
         (Value::Float(x), Value::Float(y)) => x.partial_cmp(y),
         (Value::String(x), Value::String(y)) => Some(x.as_bytes().cmp(y.as_bytes())),
         (Value::Bytes(x), Value::Bytes(y)) => Some(x.cmp(y)),
+        // JSON values are ordered by their rendered text
+        (Value::Json(x), Value::Json(y)) => Some(x.to_string().as_bytes().cmp(y.to_string().as_bytes())),
         _ => None,
     }
 }
@@ -444,10 +555,15 @@ impl Gen {
             0 => Value::Null,
             1 => {
                 // cross-type constant
-                let other = *self.r.pick(&[Ty::Int, Ty::Float, Ty::Str, Ty::Bool, Ty::Bytes]);
+                let other = *self.r.pick(&[Ty::Int, Ty::Float, Ty::Str, Ty::Bool, Ty::Bytes, Ty::Json]);
                 gen_val(&mut self.r, other)
             },
             _ => self.val_for(schema, col),
+        };
+        // a JSON constant that equals stored values but is rendered differently (what a text-keyed bucket misses)
+        let v = match v {
+            Value::Json(j) if self.r.chance(1, 3) => Value::Json(j_flip_zeros(&j)),
+            v => v,
         };
         Cond::Leaf(op, ColSel::Col(col), v)
     }
@@ -489,6 +605,7 @@ impl Gen {
                         Ty::Str => Ty::Bytes,
                         Ty::Bool => Ty::Int,
                         Ty::Bytes => Ty::Str,
+                        Ty::Json => Ty::Str,
                     };
                     vals.push(Some(gen_val(&mut self.r, other)));
                 }
@@ -545,12 +662,12 @@ impl Gen {
 }
 
 fn well_typed(t: Ty, v: &Value) -> bool {
-    matches!((t, v), (Ty::Int, Value::Int(_)) | (Ty::Float, Value::Float(_)) | (Ty::Str, Value::String(_)) | (Ty::Bool, Value::Bool(_)) | (Ty::Bytes, Value::Bytes(_)))
+    matches!((t, v), (Ty::Int, Value::Int(_)) | (Ty::Float, Value::Float(_)) | (Ty::Str, Value::String(_)) | (Ty::Bool, Value::Bool(_)) | (Ty::Bytes, Value::Bytes(_)) | (Ty::Json, Value::Json(_)))
 }
 
 fn gen_case(r: &mut Rng, idx: usize, n_ops: usize, n_queries: usize) -> Case {
     let ncols = 1 + r.below(4) as usize;
-    let tys = [Ty::Int, Ty::Float, Ty::Str, Ty::Bool, Ty::Bytes, Ty::Int, Ty::Float];
+    let tys = [Ty::Int, Ty::Float, Ty::Str, Ty::Bool, Ty::Bytes, Ty::Int, Ty::Float, Ty::Json];
     let schema: Vec<(Ty, bool)> = (0..ncols).map(|_| (*r.pick(&tys), r.chance(1, 2))).collect();
     let mut g = Gen { r: r.fork(&format!("case{idx}")), pool: vec![Vec::new(); ncols], nrows: 0 };
     let mut steps = Vec::new();
@@ -727,7 +844,76 @@ fn parallel_aggregate_case() -> Case {
 fn directed_cases(thorough: bool) -> Vec<Case> {
     let f = |x: f64| Value::Float(x);
     let i = |x: i64| Value::Int(x);
+    let jv = |v: serde_json::Value| Value::Json(v);
     let mut cases = vec![
+        // regression of relational_engine.hash_index/json_negative_zero_missed (repaired in f72f348f): the rows of
+        // the finding, the hash index created over existing rows and maintained through insert / update / delete
+        Case {
+            name: "json-neg-zero-hash".into(),
+            schema: vec![(Ty::Json, true)],
+            steps: vec![
+                ins(vec![jv(json!(-0.0))]),
+                ins(vec![jv(json!(0.0))]),
+                ins(vec![jv(json!({"a": -0.0}))]),
+                ins(vec![jv(json!([0.0]))]),
+                q(leaf(Cmp::Eq, 0, jv(json!(0.0)))),
+                Step::CreateHash(ColSel::Col(0)),
+                Step::Query(leaf(Cmp::Eq, 0, jv(json!(0.0))), 3, 0, 1),
+                Step::Query(leaf(Cmp::Eq, 0, jv(json!(-0.0))), 1, 1, 2),
+                q(leaf(Cmp::Eq, 0, jv(json!({"a": 0.0})))),
+                q(leaf(Cmp::Eq, 0, jv(json!([-0.0])))),
+                q(leaf(Cmp::Eq, 0, jv(json!(0)))),
+                ins(vec![jv(json!(1))]),
+                ins(vec![jv(json!(1.0))]),
+                ins(vec![jv(json!("x"))]),
+                ins(vec![jv(json!(null))]),
+                ins(vec![Value::Null]),
+                ins(vec![jv(json!({"a": 0.0, "b": 1}))]),
+                ins(vec![jv(json!({"b": [1, {"c": -0.0}], "a": null}))]),
+                q(leaf(Cmp::Eq, 0, jv(json!({"b": [1, {"c": 0.0}], "a": null})))),
+                q(and(leaf(Cmp::Eq, 0, jv(json!(-0.0))), leaf(Cmp::Ne, 0, jv(json!(1))))),
+                q(leaf(Cmp::Eq, 0, jv(json!(1.0)))),
+                q(leaf(Cmp::Eq, 0, jv(json!(null)))),
+                q(leaf(Cmp::Eq, 0, Value::Null)),
+                q(leaf(Cmp::Ne, 0, jv(json!(0.0)))),
+                // index maintenance through UPDATE / DELETE on the JSON column
+                Step::Update(leaf(Cmp::Eq, 0, jv(json!("x"))), vec![(ColSel::Col(0), jv(json!(-0.0)))]),
+                Step::Delete(leaf(Cmp::Eq, 0, jv(json!(1)))),
+                Step::Query(leaf(Cmp::Eq, 0, jv(json!(0.0))), 2, 1, 2),
+                Step::Update(leaf(Cmp::Eq, 0, jv(json!(0.0))), vec![(ColSel::Col(0), jv(json!([-0.0])))]),
+                q(leaf(Cmp::Eq, 0, jv(json!(0.0)))),
+                q(leaf(Cmp::Eq, 0, jv(json!([0.0])))),
+                Step::Delete(leaf(Cmp::Eq, 0, jv(json!({"a": 0.0})))),
+                q(Cond::True),
+            ],
+        },
+        // JSON values are ordered by their rendered text, in the condition and in the B-tree alike
+        Case {
+            name: "json-btree-text-order".into(),
+            schema: vec![(Ty::Json, true), (Ty::Int, false)],
+            steps: vec![
+                Step::CreateBtree(ColSel::Col(0)),
+                ins(vec![jv(json!(-0.0)), Value::Int(1)]),
+                ins(vec![jv(json!(0.0)), Value::Int(2)]),
+                ins(vec![jv(json!([0.0])), Value::Int(3)]),
+                ins(vec![jv(json!(10)), Value::Int(4)]),
+                ins(vec![jv(json!(9)), Value::Int(5)]),
+                ins(vec![jv(json!("0.0")), Value::Int(6)]),
+                ins(vec![Value::Null, Value::Int(7)]),
+                q(leaf(Cmp::Le, 0, jv(json!(0.0)))),
+                q(leaf(Cmp::Ge, 0, jv(json!(0.0)))),
+                q(leaf(Cmp::Lt, 0, jv(json!(9)))),
+                q(leaf(Cmp::Gt, 0, jv(json!(-0.0)))),
+                q(leaf(Cmp::Ge, 0, Value::Int(0))),
+                Step::CreateHash(ColSel::Col(0)),
+                q(and(leaf(Cmp::Le, 0, jv(json!(0.0))), leaf(Cmp::Eq, 0, jv(json!(0.0))))),
+                Step::Update(leaf(Cmp::Le, 0, jv(json!(0.0))), vec![(ColSel::Col(0), jv(json!({"a": -0.0})))]),
+                q(leaf(Cmp::Eq, 0, jv(json!({"a": 0.0})))),
+                q(leaf(Cmp::Le, 0, jv(json!({"a": 0.0})))),
+                // aggregated column = (limit + 2*offset + batch) % 4: c0 (min / max by text, nothing to sum)
+                Step::Query(Cond::True, 0, 0, 4),
+            ],
+        },
         Case {
             name: "neg-zero-hash".into(),
             schema: vec![(Ty::Float, false)],
@@ -1032,6 +1218,15 @@ fn classify(strategy: &str, plan: &str, c: &Cond, got: &[u64], want: &[u64], img
                         }
                         if *v == Value::Null && missing.iter().any(|id| val_of(*id, col) == Some(Value::Null)) {
                             return format!("{site}/null_row_not_indexed");
+                        }
+                        // a missing row holds a JSON value that equals the constant, renders differently, and
+                        // renders the same once every floating-point zero is written `0.0`
+                        if let Value::Json(k) = v {
+                            if missing.iter().any(|id| matches!(val_of(*id, col), Some(Value::Json(x))
+                                if j_eq(&x, k) && x.to_string() != k.to_string() && j_pos_zeros(&x).to_string() == j_pos_zeros(k).to_string()))
+                            {
+                                return format!("{site}/json_negative_zero_missed");
+                            }
                         }
                     }
                 }
@@ -1561,6 +1756,18 @@ fn run_case(case: &Case, rep: &mut Report, m: &mut Model, text_budget: &mut u64)
                 }
                 let ec = to_engine(c);
                 let cm = to_model(c);
+                {
+                    let mut ls = Vec::new();
+                    cond_leaves(c, &mut ls);
+                    for l in ls {
+                        if let Cond::Leaf(Cmp::Eq, ColSel::Col(ci), Value::Json(k)) = l {
+                            rep.hit("json.eq_leaf");
+                            if img.iter().any(|(_, vs)| matches!(vs.get(*ci), Some(Value::Json(x)) if j_eq(x, k) && x.to_string() != k.to_string())) {
+                                rep.hit("json.eq_leaf_matches_differently_rendered_row");
+                            }
+                        }
+                    }
+                }
                 // the engine's own row-level evaluate against the reference semantics
                 for (id, vals) in &img {
                     let row = Row { id: *id, values: vals.iter().enumerate().map(|(i, v)| (format!("c{i}"), v.clone())).collect() };
@@ -1741,7 +1948,10 @@ fn run_case(case: &Case, rep: &mut Report, m: &mut Model, text_budget: &mut u64)
                     ] {
                         if g != w {
                             agg_flagged = true;
-                            if via_select && select_wrong {
+                            // count_column has its own index path over the same lookup: a count that is exactly the
+                            // count over `select`'s wrong row set is that defect, not a second one
+                            let same_as_select = !via_select && select_wrong && sel_got.as_ref().is_some_and(|sg| agg_reference(&acol, sg, &img).countcol == *g);
+                            if (via_select && select_wrong) || same_as_select {
                                 rep.hit(&format!("inherits_select_defect.{name}"));
                             } else {
                                 viol(rep, &format!("relational_engine.{name}/not_over_matching_rows"), &format!("{name}({aname}) on engine '{ename}' (plan {plan}) answered {g} but over exactly the matching rows it is {w}"), json!({"case": input(), "aggregate": name, "column": aname, "engine": ename, "table": show_img(&img)}));
@@ -1895,8 +2105,8 @@ fn run_case(case: &Case, rep: &mut Report, m: &mut Model, text_budget: &mut u64)
 /// the Lean `Value.eq` / `partialCmp` (FloatBits) against the real f64 / i64 / string comparisons
 fn value_semantics(rep: &mut Report, m: &mut Model, r: &mut Rng, n: usize) {
     for k in 0..n {
-        let ta = *r.pick(&[Ty::Int, Ty::Float, Ty::Float, Ty::Float, Ty::Str, Ty::Bool, Ty::Bytes]);
-        let tb = if r.chance(4, 5) { ta } else { *r.pick(&[Ty::Int, Ty::Float, Ty::Str, Ty::Bool, Ty::Bytes]) };
+        let ta = *r.pick(&[Ty::Int, Ty::Float, Ty::Float, Ty::Float, Ty::Str, Ty::Bool, Ty::Bytes, Ty::Json, Ty::Json]);
+        let tb = if r.chance(4, 5) { ta } else { *r.pick(&[Ty::Int, Ty::Float, Ty::Str, Ty::Bool, Ty::Bytes, Ty::Json]) };
         let mut a = gen_val(r, ta);
         let mut b = gen_val(r, tb);
         if k % 7 == 0 {
@@ -1907,6 +2117,9 @@ fn value_semantics(rep: &mut Report, m: &mut Model, r: &mut Rng, n: usize) {
         }
         if k % 11 == 0 {
             b = Value::Null;
+        }
+        if let (Value::Json(x), true) = (&a, k % 3 == 1) {
+            b = Value::Json(j_flip_zeros(x));
         }
         // real engine: derived PartialEq and the public row-level evaluate
         let row = Row { id: 1, values: vec![("c0".to_string(), a.clone())] };
@@ -1923,6 +2136,12 @@ fn value_semantics(rep: &mut Report, m: &mut Model, r: &mut Rng, n: usize) {
         let ans = m.ask(&line);
         rep.case("value_semantics", Some(&line));
         rep.hit(&format!("vcmp.{cmp}"));
+        if let (Value::Json(x), Value::Json(y)) = (&a, &b) {
+            rep.hit("vcmp.json_pair");
+            if eq && x.to_string() != y.to_string() {
+                rep.hit("vcmp.json_equal_but_rendered_differently");
+            }
+        }
         rep.compare("value_semantics", || json!({"line": line}), &imp, &ans);
         let href = format!("eq={} cmp={}", u8::from(h_eq(&a, &b)), match h_cmp(&a, &b) { Some(Ordering::Less) => "lt", Some(Ordering::Equal) => "eq", Some(Ordering::Greater) => "gt", None => "none" });
         if href != imp {
@@ -2173,62 +2392,6 @@ fn prefix_names_probe(rep: &mut Report) {
     }
 }
 
-/// JSON columns (not modelled): `Value::Json` equality is structural (`-0.0 == 0.0` inside a JSON number) while the
-/// hash bucket is the hash of the rendered text.  Recorded as an observation until triaged.
-fn json_probe(rep: &mut Report) {
-    use serde_json::json as j;
-    let mk = || {
-        let e = RelationalEngine::new();
-        e.create_table("t", Schema::new(vec![Column::new("j", ColumnType::Json).nullable()])).expect("create_table");
-        for v in [j!(-0.0), j!(0.0), j!({"a": -0.0}), j!([0.0]), j!(1), j!(1.0), j!("x"), j!(null), j!({"a": 0.0, "b": 1})] {
-            let _ = e.insert("t", HashMap::from([("j".to_string(), Value::Json(v))]));
-        }
-        e
-    };
-    let (plain, hashed, btree) = (mk(), mk(), mk());
-    let _ = hashed.create_index("t", "j");
-    let _ = btree.create_btree_index("t", "j");
-    let mut findings = Vec::new();
-    let mut n = 0;
-    for round in 0..2 {
-    if round == 1 {
-        // index maintenance through UPDATE / DELETE on the JSON column
-        for e in [&plain, &hashed, &btree] {
-            let _ = e.update("t", Condition::Eq("j".into(), Value::Json(j!("x"))), HashMap::from([("j".to_string(), Value::Json(j!(-0.0)))]));
-            let _ = e.delete_rows("t", Condition::Eq("j".into(), Value::Json(j!(1))));
-        }
-    }
-    for k in [j!(0.0), j!(-0.0), j!({"a": 0.0}), j!([-0.0]), j!(1.0), j!(1), j!("x"), j!(null)] {
-        for (name, c) in [
-            ("eq", Condition::Eq("j".into(), Value::Json(k.clone()))),
-            ("ne", Condition::Ne("j".into(), Value::Json(k.clone()))),
-            ("le", Condition::Le("j".into(), Value::Json(k.clone()))),
-            ("gt", Condition::Gt("j".into(), Value::Json(k.clone()))),
-        ] {
-            let want = plain.select("t", c.clone()).map(|r| row_ids(&r)).unwrap_or_default();
-            for (ename, e) in [("hash_index", &hashed), ("btree_index", &btree)] {
-                n += 1;
-                let got = e.select("t", c.clone()).map(|r| row_ids(&r)).unwrap_or_default();
-                let cnt = e.count("t", c.clone()).unwrap_or(u64::MAX);
-                if got != want || cnt != want.len() as u64 {
-                    findings.push(json!({"cond": format!("{name} j {k}"), "engine": ename, "after_update_delete": round == 1, "scan": want, "indexed": got, "indexed_count": cnt}));
-                }
-            }
-        }
-    }
-    }
-    rep.hit_n("json_probe.queries", n);
-    if !findings.is_empty() {
-        rep.hit_n("json_probe.strategy_dependent", findings.len() as u64);
-        rep.observe(json!({
-            "what": "JSON column (outside the model): a query answered differently with an index than by the full scan",
-            "class_if_in_scope": "relational_engine.hash_index/json_negative_zero_missed",
-            "rows": ["-0.0", "0.0", "{\"a\":-0.0}", "[0.0]", "1", "1.0", "\"x\"", "null", "{\"a\":0.0,\"b\":1}"],
-            "differences": findings,
-        }));
-    }
-}
-
 /// One store, two engine objects (what `QueryRouter::with_shared_store` + a second `with_store` gives).
 /// Outside the op-sequence quantifier of the property; reported as an observation, not a violation.
 fn reopen_probe(rep: &mut Report) {
@@ -2278,14 +2441,14 @@ fn main() {
     depth_rows(&mut rep, &mut m, &mut root.fork("depth_rows"), if args.thorough { 20_000 } else { 2_500 });
     depth_engine(&mut rep, &mut m, &mut root.fork("depth_engine"), if args.thorough { 2_000 } else { 120 });
     prefix_names_probe(&mut rep);
-    json_probe(&mut rep);
     reopen_probe(&mut rep);
     rep.expected_branches = ["br.select.hash", "br.select.btree", "br.select.scan", "br.columnar.vec", "br.columnar.scan", "br.columnar.hash", "br.columnar.btree"]
         .iter()
         .map(|s| (*s).to_string())
         .collect();
     rep.note("hash buckets of strings/bytes are modelled by content (DefaultHasher collisions only enlarge a bucket; every index hit is re-checked)");
-    rep.note("JSON columns, joins, GROUP BY / DISTINCT, ORDER BY, ALTER TABLE are not modelled; condition trees of the table streams have depth <= 3, the depth_* streams use depth <= 6 under max_condition_depth <= 6");
+    rep.note("JSON columns: the model carries the tree (equality, hash bucket) and the text rendered by serde_json (order, B-tree key); JSON floats are small dyadic numbers (their text parses back exactly)");
+    rep.note("joins, GROUP BY / DISTINCT, ORDER BY, ALTER TABLE are not modelled; condition trees of the table streams have depth <= 3, the depth_* streams use depth <= 6 under max_condition_depth <= 6");
     rep.note("sum / avg: the model gives the list of addends in order, the f64 additions are done by the harness; the rayon branch (>= 1000 selected rows) is exercised on integer columns only (thorough tier)");
     rep.write(&args.out);
 }
